@@ -171,6 +171,12 @@ func (u *Unit) callExternalDefault(call *ast.CallExpr, key string, f *types.Func
 			name += sortSuffix(ss)
 			u.reg.declare(name, ss, srt)
 			v = Val{T: app(name, as...), S: srt, GT: t}
+			if key == "go/types.Unalias" && len(ss) == 1 && goTypesPkg != nil {
+				// Unalias is the identity on everything that is not an alias, and preserves nil-ness
+				u.reg.declare("dyn", []string{"Int"}, "Int")
+				u.reg.axiom(fmt.Sprintf("(forall ((x Int)) (! (=> (not (= (dyn x) %s)) (= (%s x) x)) :pattern ((%s x))))", u.reg.tagOf(aliasPtrType()), name, name))
+				u.reg.axiom(fmt.Sprintf("(forall ((x Int)) (! (= (= (%s x) 0) (= x 0)) :pattern ((%s x))))", name, name))
+			}
 			if srt == "Int" && isCountName(f.Name()) && len(ss) > 0 {
 				// lengths and counts are non-negative (for all arguments); the length of a nil tuple/list is 0
 				var bs, xs []string
@@ -207,6 +213,10 @@ func (u *Unit) callExternalDefault(call *ast.CallExpr, key string, f *types.Func
 		if u.reg.isSlice(srt) && !u.inSpec {
 			u.sliceFacts(st, v)
 		}
+		// errors created by external code have a dynamic type that is no goverter type
+		if !u.inSpec && u.isErrorType(t) && !extImpure[key] {
+			st.assume(implies(not(eq(v.T, "0")), eq(u.reg.dyn(v.T), u.reg.tagOfName("ext-error:"+key))))
+		}
 		// go/types: a types.Type handed out by an accessor is one of the value-type kinds (or an alias),
 		// never a *types.Tuple / *types.Union
 		if !u.inSpec && strings.HasPrefix(key, "go/types.") && isGoTypesType(t) {
@@ -222,6 +232,10 @@ func (u *Unit) callExternalDefault(call *ast.CallExpr, key string, f *types.Func
 			}
 		}
 		res = append(res, v)
+	}
+	if !u.inSpec && n > 1 {
+		// (value, error) results of external calls take part in the "no error is dropped" check
+		u.recordErrs(st, res, sig, key)
 	}
 	return res
 }
